@@ -86,7 +86,7 @@ for w, tier in (("u8_u16", "quick"), ("u32_u64", "quick"), ("u8_u32", "quick"), 
          text="for ANY words d (incl. trailing zero words, empty): into_binary(from_binary(d)) == d; num_valid_bits == wb*|d|; get_binary shows d and restores the coder")
     kani(f"ans_io::{w}::binary_export_any", ["C04"], tier=tier, fns=[ST + "into_binary", ST + "from_binary"],
          text="into_binary is Ok iff the payload is a whole number of words; then from_binary inverts it")
-    kani(f"ans_io::{w}::guard_compressed", ["C08", "C01"], tier=tier, fns=[ST + "get_compressed", "stack.rs::CoderGuard<SEALED=false>::{new,drop}"],
+    kani(f"ans_io::{w}::guard_compressed", ["C08", "C01", "C12"], tier=tier, fns=[ST + "get_compressed", "stack.rs::CoderGuard<SEALED=false>::{new,drop}"],
          text="get_compressed view == what into_compressed would return; drop restores (bulk,state)")
     kani(f"ans_io::{w}::pos_seek", ["C07"], tier=tier, fns=["stack.rs::<AnsCoder as Pos>::pos", "stack.rs::<AnsCoder as Seek>::seek"],
          text="pos()==(|bulk|,state); seek((p,s)) truncates to p and installs s; p > |bulk| refused, coder unchanged")
@@ -187,7 +187,10 @@ for p, tier, tmo in (("p1", "quick", 600), ("p3", "quick", 900), ("p5", "thoroug
 for m in ("u8_u32_p8", "u16_u32_p12", "u32_u64_p24"):
     for h in ("enc_impossible", "empty_message", "enc_pos", "dec_seek", "dec_new"):
         props = {"enc_impossible": ["C09"], "empty_message": ["C02", "C18"], "enc_pos": ["C07"], "dec_seek": ["C07"], "dec_new": ["C02", "C18", "C10"]}[h]
-        kani(f"range::{m}::{h}", props, tier="quick" if m == "u32_u64_p24" else "thorough", fns=[Q + h])
+        # the State = 4 Words instance of the window functions (dec_seek, dec_new) is cheap and belongs to the quick tier: zero padding at the
+        # end of data differs from the two-word case
+        kani(f"range::{m}::{h}", props, tier="quick" if (m == "u32_u64_p24" or (m == "u8_u32_p8" and h in ("dec_seek", "dec_new"))) else "thorough", fns=[Q + h])
+kani("range::u8_u32_p8::seek_final_position", ["C07", "C18"], fns=[Q + "<RangeDecoder as Seek>::seek", Q + "RangeDecoder::maybe_exhausted"], text="final-position seek at State = 4 Words")
 kani("range::u8_u32_p8::seal_suffix", ["C11"], fns=[Q + "RangeEncoder::seal"],
      text="same contract at State = 4 Words (documented claim: concatenation with arbitrary further words)")
 kani("range::u16_u32_p12::seal_suffix", ["C11", "C02", "C18"], tier="thorough", fns=[Q + "RangeEncoder::seal"], timeout=1200)
@@ -210,7 +213,9 @@ for p, tier in (("p5", "quick"), ("p8", "quick"), ("p3", "thorough")):
 kani("chain::route_remainders_u8_u16_p5", ["C13"], kind="bounded", bound="<= 4 data words, 2 symbols", timeout=1200,
      fns=[CH + "ChainCoder::from_binary", CH + "ChainCoder::into_remainders", CH + "ChainCoder::from_remainders", CH + "ChainCoder::into_binary", CH + "ChainCoderHeads::new"],
      text="from_binary -> decode 2 -> into_remainders -> from_remainders -> encode back -> into_binary == prefix ++ data")
-kani("chain::precision_change_u8_u16", ["C13", "C10", "C20"], fns=[CH + "ChainCoder::change_precision", CH + "ChainCoder::increase_precision_unchecked", CH + "ChainCoder::decrease_precision_unchecked"],
+kani("chain::precision_step_u8_u16", ["C13", "C14", "C10", "C20"], fns=[CH + "ChainCoder::change_precision", CH + "ChainCoder::increase_precision_unchecked", CH + "ChainCoder::decrease_precision_unchecked"],
+     text="one precision change from any head state: increase keeps the compressed side and re-establishes the invariant; decrease fails exactly when a refill is needed and no remainders are left")
+kani("chain::precision_change_u8_u16", ["C13", "C10", "C20", "C14"], fns=[CH + "ChainCoder::change_precision", CH + "ChainCoder::increase_precision_unchecked", CH + "ChainCoder::decrease_precision_unchecked"],
      text="change_precision<5> then <3> from any P=3 state is the identity")
 
 # =====================================================================================
@@ -229,7 +234,7 @@ for h, fns, txt in [
     ("cursor_into_reversed_write", ["Cursor::into_reversed", "<Reverse<Cursor> as WriteWords>::write"], "write after in-place reversal lands at the same logical index; free space unchanged"),
     ("vec_backend", ["<Vec as WriteWords>::write", "<Vec as ReadWords<Stack>>::read", "<Vec as Seek>::seek", "<Vec as Pos>::pos"], "Vec is a LIFO; seek truncates; beyond end refused"),
 ]:
-    kani("backends::" + h, ["C17", "C20"] + (["C07"] if h in ("cursor_seek", "vec_backend") else []) + (["C09"] if h == "cursor_write" else []), fns=[B + f for f in fns], text=txt)
+    kani("backends::" + h, ["C17", "C20"] + (["C07"] if h in ("cursor_seek", "vec_backend") else []) + (["C09"] if h in ("cursor_write", "reverse_cursor_write") else []), fns=[B + f for f in fns], text=txt)
 kani("backends::into_and_as_read_words", ["C17"], fns=[B + "IntoReadWords for Buf", B + "AsReadWords for Buf"], text="stack readers start at the write end, queue readers at the beginning; borrowed readers leave the buffer untouched")
 kani("backends::smallvec_backend", ["C17"], kind="bounded", bound="SmallVec<[u8;2]> with <= 3 words", fns=[B + "SmallVec impls"])
 kani("backends::adapters", ["C17"], kind="bounded", bound="3-word iterator, 2 callback writes", fns=[B + "FallibleIteratorReadWords", B + "InfallibleCallbackWriteWords", B + "FallibleCallbackWriteWords"])
@@ -258,7 +263,7 @@ kani("bits::exp_golomb_u8", ["C16"], timeout=1800, fns=["symbol/exp_golomb.rs::E
 kani("bits::exp_golomb_u16", ["C16"], tier="thorough", timeout=3600, fns=["symbol/exp_golomb.rs::ExpGolomb<u16>"], text="same for every u16 value")
 HF = "symbol/huffman.rs::"
 for n, tier, tmo in (("n1", "quick", 300), ("n2", "quick", 600), ("n3", "quick", 900), ("n4", "thorough", 3600)):
-    kani("huffman::" + n, ["C15", "C20"], tier=tier, kind="bounded", bound=f"{n[1:]} symbols, u8 weights", timeout=tmo,
+    kani("huffman::" + n, ["C15", "C20"] + (["C09"] if n in ("n2", "n3") else []), tier=tier, kind="bounded", bound=f"{n[1:]} symbols, u8 weights", timeout=tmo,
          fns=[HF + "EncoderHuffmanTree::try_from_probabilities", HF + "DecoderHuffmanTree::try_from_probabilities", HF + "EncoderHuffmanTree::encode_symbol_suffix", HF + "DecoderHuffmanTree::decode_symbol", S + "EncoderCodebook::encode_symbol_prefix"],
          text="lengths == reference merge with (weight,index) order; Kraft equality; minimal cost; prefix == reversed suffix; decode inverts; out-of-alphabet rejected; node indices in bounds")
 
@@ -388,7 +393,7 @@ lemma("lemmas_range_interval.rs", ["C02", "C07", "C11"])
 lemma("lemmas_range_bridge.rs", ["C02", "C06", "C11"])
 lemma("lemmas_seal.rs", ["C11", "C02"])
 lemma("lemmas_chain.rs", ["C13"])
-kani("range::guard_u8_u16", ["C08", "C18", "C02", "C06"], timeout=900, fns=[Q + "EncoderGuard::{new,drop}", Q + "RangeEncoder::{seal,unseal,num_seal_words,num_words,get_compressed}"],
+kani("range::guard_u8_u16", ["C08", "C18", "C02", "C06", "C11", "C12"], timeout=900, fns=[Q + "EncoderGuard::{new,drop}", Q + "RangeEncoder::{seal,unseal,num_seal_words,num_words,get_compressed}"],
      text="view == into_compressed() of a twin (all situations, n_inv<=2, pre-filled sink); drop restores bulk/state/situation")
 kani("models::float_view_uniform_u16_p12", ["C18"], fns=[M + "model.rs::EncoderModel::floating_point_probability"],
      text="floating_point_probability * 2^P == probability exactly; 0 outside the support")
@@ -709,6 +714,19 @@ kani("models::quantizer_search_i8_wide", ["C10", "C03"], kind="bounded", bound="
 kani("models::quantizer_search_i8_wide_tails", ["C10", "C03"], kind="bounded", bound="support -100..=100 (i8), all mass beyond one end and the hint at the other end, every quantile", timeout=1800, fns=QF,
      loop_contract=(["C10", "C03"], "quantile_function's search loops finish within 24 iterations: <= 7 doublings (1..64) + <= 4 moves at the largest step across 201 symbols + <= 7 halvings, inner loop <= 8"),
      text="terminates within the loop contract (found: step doubling into the sign bit never terminates); symbol in support; interval holds the quantile; == encoder view")
+kani("range::decoder_constructors_u8_u16", ["C02", "C17"], fns=[Q + "RangeDecoder::for_compressed", Q + "RangeDecoder::from_compressed", "backends.rs::AsReadWords<Queue> for Buf", "backends.rs::IntoReadWords<Queue> for Buf"],
+     text="for_compressed(&words) / from_compressed(words) start at the first word: point == first window, full interval")
+kani("models::quantizer_decode_i8_u16_wide", ["C10", "C03"], kind="bounded", bound="step CDFs, exact inverse hint; support -100..=100 (i8) with u16 probabilities", fns=QF,
+     text="every symbol's first quantile decodes back to it without overflow (sign extension of symbol - min masked)")
+kani("models::lazy_flaky_pmf", ["C20"], fns=[M + "categorical/lazy_contiguous.rs::LazyContiguousCategoricalEntropyModel::{left_cumulative_and_probability,quantile_function}"],
+     allow=[r"attempt to (add|subtract|multiply) with overflow", r"This is a placeholder message", r"index out of bounds"],
+     text="a caller-supplied AsRef<[F]> that changes its answer between calls may produce wrong results or panics, never an unchecked access out of bounds (overflow / expect / bounds panics are clean failures here)")
+kani("models::quantizer_wild_distribution", ["C20"], kind="bounded", bound="two-valued non-monotone 'CDF' from {0, .25, .5, 1}, support -4..=3",
+     allow=[r"This is a placeholder message", r"attempt to (add|subtract) with overflow"],
+     fns=[M + "quantize.rs::<LeakilyQuantizedDistribution as EncoderModel>::left_cumulative_and_probability"],
+     text="a non-monotone caller-supplied distribution may make the model panic, never put a zero inside the non-zero probability type")
+for _m in ("uniform_u8_p8", "uniform_u8_p5"):
+    kani(f"models::{_m}::table_full", ["C05"], kind="bounded", bound="full alphabet (range == 2^P), one symbolic row", fns=[M + "uniform.rs::UniformModel::symbol_table"], text="row k of the symbol table of the full alphabet == encoder view of k, for every k")
 kani("models::quantizer_view_i8_u16_wide", ["C03", "C09"], fns=[M + "quantize.rs::slack", M + "quantize.rs::<LeakilyQuantizedDistribution as EncoderModel>::left_cumulative_and_probability"],
      text="signed symbols narrower than the probability type, support wider than half the symbol type: every in-support symbol gets a non-empty interval, consecutive with its successor, first starts at 0, last ends at 2^P; others impossible (any step CDF)")
 kani("models::quantizer_symbol_table_i8_u16_wide", ["C05"], kind="bounded", bound="one concrete step CDF, all 201 rows", timeout=1800,
